@@ -233,10 +233,11 @@ CB_RULE = ("server-loop worlds (harness/srvx.py, every front door): UdpClient.se
 def callback_world(run, rng, idx, front, loss, p_raise):
     from harness import srvsim as V, srvx as X
     from mpgameserver.connection import Packet
-    env = S.env_for_mtu(1500)
+    mtu = rng.choice([1500, 1500, 576, 1096])
+    env = S.env_for_mtu(mtu)
     S.restore_mtu()
     mp = env[0]
-    sizes = [0, 1, 7, 100, 100, 600, mp - 1, mp, mp + 1, 3000]
+    sizes = [0, 1, 7, 100, 100, min(600, mp - 2), mp - 1, mp, mp + 1, 3000]
     quiet = [False]     # the application stops talking some time after the network healed, so that everything can settle
     srv_sent = {}       # (addr, payload) -> event kind it was sent from
     cli_sent = {}       # (addr, payload) -> where it was sent from
@@ -283,7 +284,7 @@ def callback_world(run, rng, idx, front, loss, p_raise):
                     srv_sent[(c.addr, p)] = "update"
                     acts.append([1, V.av(c.addr), p, -1, -1])
         return acts, kind in (3, 4, 5) and rng.random() < p_raise
-    w = X.WorldX(run, rng, cfg=(5 * T, 2 * T, 1536, T // 4), policy=policy, full=True, front=front, api_sends=True)
+    w = X.WorldX(run, rng, cfg=(5 * T, 2 * T, 1536, T // 4), policy=policy, full=True, front=front, api_sends=True, mtu=mtu)
     sim = w.sim
     faulty = [True]
 
@@ -300,7 +301,7 @@ def callback_world(run, rng, idx, front, loss, p_raise):
         if not ok:
             return
         conn = hc.client.conn
-        for n in rng.choice([[7], [0, 100], [100, mp + 1], [1, 1, 1], [3000], [mp], [600, 600, 600]]):
+        for n in rng.choice([[7], [0, 100], [100, mp + 1], [1, 1, 1], [3000], [mp], [mp // 3, mp // 3, mp // 3]]):
             p = payload(b"c-connect", hc.addr, n)
             if (hc.addr, p) in cli_sent:
                 continue
@@ -352,7 +353,7 @@ def callback_world(run, rng, idx, front, loss, p_raise):
                 handed[(cid_addr.get(o[1][1]), bytes(o[1][3]))] = handed.get((cid_addr.get(o[1][1]), bytes(o[1][3])), 0) + 1
             elif o[0] == 0 and o[1][0] == 5:
                 closed.add(cid_addr.get(o[1][1]))
-        base = {"scenario": "guaranteed sends from callbacks", "world": idx, "front": front, "loss": loss, "p_raise": p_raise}
+        base = {"scenario": "guaranteed sends from callbacks", "world": idx, "front": front, "mtu": mtu, "loss": loss, "p_raise": p_raise}
         n_ok = 0
         for rec in recs:
             a, hc = rec["addr"], rec["hc"]
